@@ -15,6 +15,7 @@ import PFV.Proofs.GenTotal
 import PFV.Proofs.GenRun
 import PFV.Proofs.LexEnc
 import PFV.Proofs.GenFrame
+import PFV.Proofs.GenWF
 import PFV.Api
 import PFV.Reach
 import PFV.Front
@@ -881,6 +882,41 @@ theorem optin_any_config {σ} (E : Entropy σ) (X : G.Ext) (c : Cfg) (s s' : σ)
   · intro o ho; cases o <;> simp [G.tcOp] at ho <;> simp [Spec.isExt, Spec.isBuffer]
   · simp [Spec.isExt, Spec.isBuffer]
 end C10
+
+/-! ## C04 — end to end: the bytes of the exact generator -/
+namespace C04
+
+/-- **C04, end to end, for every configuration.**  For every protocol ≤ 5, every configuration
+(opcode range, EXT/buffer switches, every mutator set and rate, unsafe mutations and type confusion
+included), every lawful entropy source and every result of the exact generator `G.generate`
+(the function S3 compares byte for byte with `generate_internal`): the returned bytes decode
+completely under the reference lexer — every opcode byte known, every argument complete and in its
+prescribed encoding, exactly one STOP and nothing after it — and every argument is inside its
+domain (`Spec.wellFormed`).  Hypotheses, both checked on the real data on every run (S3):
+`FloatOK` (what Rust's `{}` prints for an `f64` is a newline-free literal Python's `float()`
+accepts) and `ModsOK` (the embedded module list holds newline-free ASCII names without escapes).
+The length bound says the body is shorter than 2^64 bytes (the width of the FRAME argument). -/
+theorem generated_bytes_well_formed {σ} (E : Entropy σ) (X : G.Ext) (c : Cfg)
+    (hE : Lawful E) (hF : FloatOK X.fmt) (hM : ModsOK X.mods) (hv : c.version ≤ 5)
+    (s s' : σ) (r : G.Result) (h : G.generate E X c s = .ok (r, s'))
+    (hlen : (r.instrs.flatMap Enc.encode).length < 18446744073709551616) :
+    Spec.wellFormed r.bytes = true :=
+  G.generate_wf E X c hE hF hM hv s s' r h hlen
+
+/-- the same for the `arbitrary`-driven source of the fuzzing entry points (its lawfulness is
+`C18.arb_lawful`) -/
+theorem generated_bytes_well_formed_arb (X : G.Ext) (c : Cfg) (hF : FloatOK X.fmt) (hM : ModsOK X.mods)
+    (hv : c.version ≤ 5) (input rest : List UInt8) (r : G.Result)
+    (h : G.generate Arb.E X c input = .ok (r, rest))
+    (hlen : (r.instrs.flatMap Enc.encode).length < 18446744073709551616) :
+    Spec.wellFormed r.bytes = true :=
+  G.generate_wf Arb.E X c Arb.lawful hF hM hv input rest r h hlen
+
+/-- the `ModsOK` hypothesis follows from the check the driver runs on the loaded module list -/
+theorem mods_hypothesis_checkable (mods : List (List UInt8 × List UInt8)) (h : Spec.modsOk mods = true) :
+    ModsOK mods := modsOK_of_check mods h
+
+end C04
 
 end PFV
 
